@@ -343,19 +343,61 @@ Definition file_ops (i : inv) (rm : bool) (s : fs) (src : path) (d : dsel) (v : 
 
 Definition is_fail (r : fres) : bool := match r with FOk => false | _ => true end.
 
+(* ---- the outputs this command has completed (a937acd) ----
+   FIO_rememberOutput(fCtx, srcFileName, dstFileName): after a destination opened for one source has been written and
+   closed with result == 0, the pair (output name, input name) is remembered in the FIO context.
+   FIO_openDstFile / FIO_isOutputOfAnotherInput: a destination name that denotes a regular file which is
+   (UTIL_isSameFile) one of the remembered outputs, written for an input that is NOT (UTIL_isSameFile) the current one,
+   is refused -- before the -f / prompt test, nothing is touched.  (With one name nothing is remembered; the list is
+   then never consulted either.  stdout "closed here" is remembered too in the code, under a name that never stats.) *)
+Definition own_refused (own : list (path * path)) (s : fs) (src dst : path) : bool :=
+  is_reg (look s dst) &&
+  existsb (fun e => same_file s (fst e) dst && negb (same_file s (snd e) src)) own.
+
+(* the refusal, for a destination that is a regular file, is what FIO_openDstFile does when neither -f nor a "y" is
+   given: the segment of a refused source is file_ops of the invocation without -f and without interaction *)
+Definition no_ovw (i : inv) : inv :=
+  mkInv (i_mode i) (i_srcs i) (i_out i) false (i_rmk i) None (i_rec i) (i_excl i) (i_dict i) (i_patch i).
+
+Definition inv_for (i : inv) (own : list (path * path)) (s : fs) (src : path) (d : dsel) : inv :=
+  match d with
+  | DOwn p => if own_refused own s src p then no_ovw i else i
+  | _ => i
+  end.
+
+(* result == 0 in FIO_compressFilename_dstFile / FIO_decompressDstFile for a destination opened for this source *)
+Definition completes (i : inv) (s : fs) (src : path) (d : dsel) (v : verdict) : bool :=
+  match d with
+  | DOwn p =>
+      match src_gate i s src v with
+      | GGo => match snd (open_dst (ovw i) s v (Some src) p (negb (is_stdin src))) with
+               | Some _ => is_ret0 (snd (codec i d v)) && v_close_ok v
+               | None => false
+               end
+      | _ => false
+      end
+  | _ => false
+  end.
+
+Definition own_next (i : inv) (own : list (path * path)) (s : fs) (src : path) (d : dsel) (v : verdict) : list (path * path) :=
+  match d with
+  | DOwn p => if completes i s src d v then (p, src) :: own else own
+  | _ => own
+  end.
+
 (* the loop over the sources; result: inl err (all files processed) | inr n (exit(n) in the middle) *)
-Fixpoint loop (i : inv) (rm : bool) (dof : path -> option dsel) (vs : path -> verdict)
+Fixpoint loop (i : inv) (rm : bool) (dof : path -> option dsel) (vs : path -> verdict) (own : list (path * path))
          (srcs : list path) (s : fs) (err : bool) : list op * (bool + N) :=
   match srcs with
   | [] => ([], inl err)
   | src :: tl =>
       match dof src with
-      | None => loop i rm dof vs tl s true
+      | None => loop i rm dof vs own tl s true
       | Some d =>
-          let '(ops, r) := file_ops i rm s src d (vs src) in
+          let '(ops, r) := file_ops (inv_for i own s src d) rm s src d (vs src) in
           match r with
           | FThrow n => (ops, inr n)
-          | _ => let '(ops', e) := loop i rm dof vs tl (run ops s) (err || is_fail r) in
+          | _ => let '(ops', e) := loop i rm dof vs (own_next (inv_for i own s src d) own s src d (vs src)) tl (run ops s) (err || is_fail r) in
                  (ops ++ ops', e)
           end
       end
@@ -505,7 +547,7 @@ Definition fio_main (i : inv) (names : list path) (s : fs) (vs : path -> verdict
               let '(oo, ot) := open_dst true s (vs p) None p false in
               match ot with
               | Some t =>
-                  let '(ops, e) := loop i false (fun _ => Some (DShared t)) vs names (run oo s) false in
+                  let '(ops, e) := loop i false (fun _ => Some (DShared t)) vs [] names (run oo s) false in
                   oo ++ ops ++ match e with
                                | inl _ => OClose t :: (if v_close_ok (vs p) then exit_of e else [OExit (close_code i)])
                                | inr _ => []
@@ -515,14 +557,14 @@ Definition fio_main (i : inv) (names : list path) (s : fs) (vs : path -> verdict
             else [OExit 1]
         | _ =>
             (* stdout: no prompt; fclose(stdout) at the end *)
-            let '(ops, e) := loop i false (dsel_of i names) vs names s false in
+            let '(ops, e) := loop i false (dsel_of i names) vs [] names s false in
             ops ++ match e with
                    | inl _ => if v_close_ok (vs stdoutmark) then exit_of e else [OExit (close_code i)]
                    | inr _ => []
                    end
         end
       else
-        let '(ops, e) := loop i (eff_rm i names) (dsel_of i names) vs names s false in
+        let '(ops, e) := loop i (eff_rm i names) (dsel_of i names) vs [] names s false in
         ops ++ exit_of e
   end.
 
